@@ -21,8 +21,9 @@ Deductive part:
                           their rows.spec / cols.spec contracts, the 8 x 8 real block updates through C02's homomorphism and the layout
                           obligation P8^T Realp(M) P8 = real_expand(M) (P8.layout, index level, real code on symbolic components);
                           the shift loops of the pure variant enter through closed forms discharged at index level (entry_loops).
-                          Result: Q unitary and Q^H A Q - T = D exactly on every exit; that every zeroed entry is below the deflation
-                          test is proved at index level for the two pure variants and sampled for the others.
+                          Result: Q unitary and Q^H A Q - T = D exactly on every exit; that every zeroed entry passed the variant's own
+                          deflation test (so D is made of entries below the tolerance-scaled thresholds) is proved at index level for
+                          all five variants (entry_loops: ghost predicates defined row by row with the code's own expressions).
 Convergence (that the budget suffices, which shifts work) is not a contract-level property; the bounded stand-in runs every variant x shift x
 budget (0, 1, 2, 5, default) on n <= 5 (6) matrix classes."""
 from __future__ import annotations
@@ -1119,11 +1120,113 @@ def pure_entry_loops(rep: Report):
 
         def havoc(self, it, fr, k):
             pass
+    # ---- real-expansion variant: the two deflation loops of the main loop (the final clean-up is covered by the epilogue case)
+    QS = SC + "quaternion_schur"
+    NEST = QS + ".<_apply_single_shift>"
+
+    def qabs(q):
+        # _quat_scalar_abs written with the code's own operations:  float(np.sqrt(q.w*q.w + q.x*q.x + q.y*q.y + q.z*q.z))
+        w, x, y, z = comps(q)
+        return ssqrt(w * w + x * x + y * y + z * z)
+
+    def formula_first(fr, Hin, r):
+        tol = fr.vars["tol"]
+        denom = qabs(Hin(r - 1, r - 1)) + qabs(Hin(r, r)) + qabs(Hin(r, r - 1))
+        return qabs(Hin(r, r - 1)), qabs(Hin(r, r - 1)) <= tol * smax(Fraction(1), denom)
+
+    def formula_second(fr, Hin, r):
+        tol = fr.vars["tol"]
+        denom = qabs(Hin(r - 1, r - 1)) + qabs(Hin(r, r)) + Fraction(1, 10 ** 30)
+        return qabs(Hin(r, r - 1)), qabs(Hin(r, r - 1)) <= Fraction(1, 100) * tol * smax(Fraction(1), denom)
+
+    def zero_rule(var, formula, tag):
+        """for i in range(1, m_active): entry (i, i-1) of `var` is set to zero exactly when the row passes `formula` on the loop's input; nothing else is written"""
+        SM = z3.Function("SMALL" + tag, z3.IntSort(), z3.BoolSort())
+
+        def snap_in(fr):
+            g = cur().ghost
+            if tag not in g:
+                g[tag] = snapshot(fr.vars[var])
+            return g[tag]
+
+        def closed(it, fr, k):
+            Hin = snap_in(fr)
+            return lambda vi: ix.ite(sand(SBool.mk(zi(vi[1]) == zi(vi[0]) - 1), vi[0] >= 1, vi[0] < k, SBool.mk(SM(zi(vi[0])))), ix.QScal(Fraction(0)), Hin(vi[0], vi[1]))
+
+        def assume(it, fr, k):
+            _, test = formula(fr, snap_in(fr), k)
+            cur().assume(SBool.mk(SM(zi(k)) == test.z))
+
+        class R(FunctionalInv):
+            def havoc(self, it, fr, k):
+                FunctionalInv.havoc(self, it, fr, k)
+                if "deflated_idx" in self.modifies:
+                    L = SInt.var(cur().fresh_name("n_defl"))
+                    cur().assume(L >= 0)
+                    fr.vars["deflated_idx"] = SymList(L, "deflated_idx")
+        r = R(arrays={var: closed}, assume=assume, tag=f"schur.{tag}.")
+        return r
+
+    class MainAS(LoopRule):
+        modifies = ("HR", "Q_real", "H", "m_active", "k", "prev_max_sub", "stagnation_count", "diag", "sigma")
+
+        def havoc(self, it, fr, k):
+            c = cur()
+            n = fr.vars["n"]
+            fr.vars["HR"] = ix.input_array(c.fresh_name("HRin"), [4 * n, 4 * n])
+            fr.vars["Q_real"] = AnyReal((4 * n, 4 * n))
+            fr.vars["H"] = fresh_q("Hhead", (n, n))
+            ma, kk, sc = SInt.var(c.fresh_name("m_active")), SInt.var(c.fresh_name("k")), SInt.var(c.fresh_name("stagn"))
+            c.assume(sand(ma >= 2, ma <= n, kk >= 0, sc >= 0))
+            fr.vars["m_active"], fr.vars["k"], fr.vars["stagnation_count"] = ma, kk, sc
+            pm = SReal.var(c.fresh_name("prev_max_sub"))
+            c.assume(pm >= 0)
+            fr.vars["prev_max_sub"] = pm
+            fr.vars["sigma"] = SReal.var(c.fresh_name("sigma_prev"))
+            L = SInt.var(c.fresh_name("n_it"))
+            c.assume(L >= 0)
+            fr.vars["diag"] = {"iterations": SymList(L, "iterations"), "converged": False, "iterations_run": 0}
+
+    def k_contract_q(I, args, kwargs):
+        R_, m_, n_ = args
+        return fresh_q("Contr", (m_, n_))            # (argument: an index-level array or an AnyReal)
+
+    def k_expand_q(I, args, kwargs):
+        (Qm,) = args
+        return ix.input_array(cur().fresh_name("Real"), [4 * Qm.shape[0], 4 * Qm.shape[1]])
+
+    class AnyReal:
+        """a real 4n x 4n matrix about which nothing is known, closed under the products the main loop forms with it"""
+        qv_value = True
+
+        def __init__(self, shape):
+            self.shape = tuple(shape)
+
+        def has_attr(self, name):
+            return name == "shape"
+
+        def __matmul__(self, o):
+            return AnyReal(self.shape)
+
+        def __rmatmul__(self, o):
+            return AnyReal(self.shape)
+
+    def k_shift_sweep(I, args, kwargs):
+        HRin = args[0]
+        return AnyReal(HRin.shape), AnyReal(HRin.shape)
+    contracts.update({U + "real_expand": k_expand_q, U + "real_contract": k_contract_q, NEST: k_shift_sweep})
+    first = zero_rule("H", formula_first, "first")
+    first.modifies = tuple(first.modifies) + ("deflated_idx",)
+    cases[QS] = {(QS, 2): at(MainAS(), None, "k<max_iterandm_active>1"), (QS, 3): at(first, "i", "range(1,m_active)"),
+                 (QS, 4): at(HavocAll({"m_active": lambda it, fr: fr.vars["m_active"]}), None, "m_active>1and_quat_scalar_abs(H[m_active-1,m_active-2])<=tol"),
+                 (QS, 5): at(HavocAll({"subdiag_norm": lambda it, fr: SReal.var(cur().fresh_name("sdn"))}), "i", "range(1,m_active)"),
+                 (QS, 7): at(zero_rule("H_tmp", formula_second, "second"), "i", "range(1,m_active)"),
+                 (QS, 9): at(HavocAll({"H_final": arb("Hfin")}), "i", "range(n)")}
     FORMULA.update({QN: formula_pure, QI: formula_pure, QU: formula_unified})
     cases[QE] = {(QE, 0): at(MainAE(), "k", "range(max_iter)"), (QE, 1): at(Scan(), None, "i>lo"),
                  (QE, 3): at(HavocAll({"H": arb("Hsw"), "Q_accum": arb("Qsw")}), "s", "range(start,hi)"), (QE, 4): at(AfterScan(), "j", "range(lo+1,hi+1)")}
     EXTRA = {QN: dict(shift_mode="rayleigh"), QI: dict(shift_mode="rayleigh"), QU: dict(variant="aed", precompute_shifts=False, aed_factor="sym"),
-             QE: dict(variant="aed_windowed", window="sym")}
+             QE: dict(variant="aed_windowed", window="sym"), QS: dict(shift="rayleigh")}
 
     def post(I, ctx, outcome, val, aux):
         return []
@@ -1142,7 +1245,14 @@ def pure_entry_loops(rep: Report):
                 kw["window"] = SInt.var("window")
                 ctx.assume(kw["window"] >= 1, base=True)
             return [A], dict(max_iter=K, tol=tol, return_diagnostics=True, **kw), (A, n, tol)
-        run_case(rep, P, qn, "entry_loops", setup, post, lib=Library("idx"), contracts=contracts, loop_rules=rules, clauses=[], replay=replay_variants, timeout_s=60,
+        lib_ = Library("idx")
+
+        def eigvals(Bm):
+            c = cur()
+            re, im = [SReal.var(c.fresh_name("ev_re")) for _ in range(2)], [SReal.var(c.fresh_name("ev_im")) for _ in range(2)]
+            return ix.IArr.from_fn([2], lambda vi: ix.CScal(ix.ite(SBool.mk(zi(vi[0]) == 0), re[0], re[1]), ix.ite(SBool.mk(zi(vi[0]) == 0), im[0], im[1])), cplx=True)
+        lib_.np.table["linalg"].table["eigvals"] = eigvals
+        run_case(rep, P, qn, "entry_loops", setup, post, lib=lib_, contracts=contracts, loop_rules=rules, clauses=[], replay=replay_variants, timeout_s=60,
                  loop_end=True, max_paths=600)
 
 
@@ -1821,7 +1931,7 @@ def bounded(rep: Report, tier, seed):
 def run(tier, seed):
     rep = Report(P, tier, seed, "exploration")
     rep.assumptions += [
-        "all five variants are proved through their whole iteration at matrix level (householder_matrix / ggivens unitary by their C09 / C16 contracts, real_expand a *-homomorphism with real_contract its inverse by C02, numpy fancy-index block updates X[idx, :] = B @ X[idx, :] read as multiplication by the embedded block); the accumulated zeroings D are bounded entrywise by the deflation tests - proved for the pure variants, sampled for the others - and their norm is not summed up",
+        "all five variants are proved through their whole iteration at matrix level (householder_matrix / ggivens unitary by their C09 / C16 contracts, real_expand a *-homomorphism with real_contract its inverse by C02, numpy fancy-index block updates X[idx, :] = B @ X[idx, :] read as multiplication by the embedded block); the accumulated zeroings D are bounded entrywise by the variants' own deflation tests (index-level contracts of every deflation loop / scan) and their norm is not summed up",
         "hessenbergize, check_hessenberg, quat_matmat, quat_hermitian, real_expand / real_contract are used through contracts (C09, C01, C02)",
         "floats as reals; 'accuracy governed by the deflation tolerance' is checked with the explicit bound 1e-7 n ||A||",
     ]
